@@ -11,7 +11,7 @@ def run(tier):
     feats = ("spawn", "spawn", "join", "yield", "atomic", "chan", "chan", "chan", "mutex", "rand")
     res = run_prog_check("C06", PROPS, tier, ["c03", "objects:C03", "sync2:C06"], features=feats, n_quick=3000, n_thorough=60000, rule=RULE,
                          focus=["chan"],
-                         focus_n=(2500, 50000))
+                         focus_n=(2500, 50000), exhaustive=["chan"], exh_n=(60, 600))
     if isinstance(res, int):
         return res
     ctx, cases, mo, io = res
